@@ -164,7 +164,7 @@ func runC17(cfg *config, res *monitor.Result) {
 					if len(bridge.SortedFieldNumbers(d.ProtoReflect())) == 0 {
 						empty = ":empty-message"
 					}
-					sig := fmt.Sprintf("C17:%s:%s:%s:%s%s", t.pkg.Flavour, dir, failure, strings.Join(pos, "+"), empty)
+					sig := fmt.Sprintf("C17:%s:%s:%s:%s%s", sigFlav(t), dir, failure, strings.Join(pos, "+"), empty)
 					w := map[string]any{"package": t.pkg.GoPkg, "message": string(t.md.FullName()), "value": bridge.Text(d), "unset_required": cleared}
 					for k, v := range extra {
 						w[k] = v
